@@ -162,3 +162,72 @@ def vector_raw(ck, mod):
             okv = v is r["arr"] or (nsub == 1 and isinstance(v, tuple) and v[0] == "squeezed" and v[1] is r["arr"] and v[2] in (drop1, ("squeeze", 1), ("squeeze", -1), ("squeeze", (1,))))
             ck.struct("reader.vector.returns_the_block", okv, "%s: returned %r (only the sub-channel axis may be squeezed)" % (tag, v), {"attr": tag})
         ck.add(pysym.obligations_of(outs, func))
+
+
+def read_cache_contract(ck, mod):
+    """_top_level_dir_properties._read over SEQUENCES of calls on one reader object (the cached open file): whatever was asked before,
+    a call returns exactly the rows of the candidate files that exist now - a file that was absent at an earlier call is read once it
+    exists (visibility only grows), a vanished file is skipped, alternating files do not mix their data."""
+    cls = mod._top_level_dir_properties
+    real_os, real_h5 = mod.os, mod.h5py
+    A, B = "s/rf@1.000.h5", "s/rf@2.000.h5"
+    content = {A: ([(1000, 0), (1500, 10)], 30), B: ([(2000, 0)], 7)}
+    sequences = {
+        "absent then present": [([A], set()), ([A], {A})],
+        "present twice": [([A], {A}), ([A], {A})],
+        "alternating": [([A], {A, B}), ([B], {A, B}), ([A], {A, B})],
+        "two candidates": [([A, B], {A, B})],
+        "present then vanished": [([A], {A}), ([A], set()), ([A], {A})],
+        "second file appears later": [([A, B], {A}), ([A, B], {A, B}), ([B], {A, B})],
+    }
+    import numpy as np
+    for name, seq in sequences.items():
+        exists = set()
+        opened = []
+
+        class Data:
+            def __init__(self, path, n):
+                self.path, self.shape = path, (n, 1)
+
+            def __getitem__(self, key):
+                sl = key[0] if isinstance(key, tuple) else key
+                return ("rows", self.path, sl.start, sl.stop)
+
+        class F(dict):
+            def close(self):
+                self.closed = True
+
+        def File(path, mode="r", **kw):
+            rel = path.split("/top/ch/")[-1]
+            opened.append((rel, mode))
+            if rel not in exists:
+                raise IOError("no such file")
+            rows, n = content[rel]
+            return F({"rf_data": Data(rel, n), "rf_data_index": {Ellipsis: np.array(rows, dtype=np.uint64)}})
+        mod.h5py = types.SimpleNamespace(File=File)
+        mod.os = types.SimpleNamespace(path=real_os.path, R_OK=real_os.R_OK, access=lambda p, m: p.split("/top/ch/")[-1] in exists)
+        self_ = types.SimpleNamespace(access_mode="local", top_level_dir="/top", channel_name="ch", _cachedFilename=None, _cachedFile=None, rdcc_nbytes=1000)
+        ok, detail = True, ""
+        try:
+            for step, (cands, now) in enumerate(seq):
+                exists.clear()
+                exists.update(now)
+                d = {}
+                cls._read(self_, 0, 10 ** 9, list(cands), d, len_only=False, sub_channel=None)
+                want = {}
+                for c in cands:
+                    if c in now:
+                        rows, n = content[c]
+                        for i, (g0, o0) in enumerate(rows):
+                            o1 = rows[i + 1][1] if i + 1 < len(rows) else n
+                            want[g0] = ("rows", c, o0, o1)
+                got = {int(k): (v[0], v[1], int(v[2]), int(v[3])) for k, v in d.items()}
+                if got != want:
+                    ok, detail = False, "call %d of %s: candidates %s, existing %s: returned %s, expected %s" % (step + 1, name, cands, sorted(now), got, want)
+                    break
+        except Exception as e:
+            ok, detail = False, "%s: raised %r" % (name, e)
+        finally:
+            mod.os, mod.h5py = real_os, real_h5
+        ck.struct("reader.cache.returns_what_exists_now", ok, detail or name, {"attr": name})
+        ck.struct("reader.cache.opens_readonly", all(m == "r" for _, m in opened), "%s: opened %s" % (name, opened), {"attr": name})
